@@ -6,7 +6,7 @@ D=$(realpath "$1"); P=$2; T=${3:-}
 WT=/tmp/sc_$$; rm -rf $WT
 git -C /repo worktree add -f --detach $WT HEAD -q >/dev/null 2>&1
 ( cd $WT && PYTHONPATH=$WT /venv/bin/python $D/demo.py >/dev/null 2>&1 ); base=$?
-git -C $WT apply $D/patch.diff || { echo "PATCH DOES NOT APPLY"; git -C /repo worktree remove --force $WT; exit 9; }
+git -C $WT apply $D/patch.diff 2>/dev/null || git -C $WT apply --3way $D/patch.diff 2>/dev/null || { echo "PATCH DOES NOT APPLY"; git -C /repo worktree remove --force $WT; exit 9; }
 ( cd $WT && PYTHONPATH=$WT /venv/bin/python $D/demo.py >/dev/null 2>&1 ); mutd=$?
 echo "demo: HEAD exit=$base  patched exit=$mutd"
 if [ "$T" = "--tests" ]; then ( cd /verif && .venv/bin/python vf/baseline.py $WT ); fi
